@@ -296,16 +296,17 @@ class Transmitter(AbstractTransmitter):
         if (self._step_nr == 1) and (not self._markov_reset):
             origin = (self._current_time - self._warmup) if self._warmup else datetime.min
             #start_date, end_date = self._folds[self._fold_name]
-            events_latent = [
-                e for t, e in self._partition_latent.items()
+            # No decision is pending at reset: replay the whole history in
+            # chronological order, timestep by timestep.
+            timesteps = sorted(
+                t for t in set(self._partition_latent) | set(self._partition_nonlatent)
                 if origin <= t <= self._current_time
-            ]
-            events_latent = list(itertools.chain(*events_latent))
-            events_nonlatent = [
-                events for t, events in self._partition_nonlatent.items()
-                if origin <= t <= self._current_time
-            ]
-            events_nonlatent = list(itertools.chain(*events_nonlatent))
+            )
+            events_latent = list()
+            events_nonlatent = list(itertools.chain(*[
+                self._partition_latent.get(t, []) + self._partition_nonlatent.get(t, [])
+                for t in timesteps
+            ]))
         else:
             events_latent = self._partition_latent[self._current_time]
             events_nonlatent = self._partition_nonlatent[self._current_time]
